@@ -80,6 +80,18 @@ class Tag:
     __repr__ = __str__
 
 
+class PointNT(__import__("collections").namedtuple("PointNT", "a b")):
+    """A namedtuple argument value (a tuple subclass whose constructor does not take one iterable); prints like probes.render
+    prints any tuple."""
+
+    __slots__ = ()
+
+    def __str__(self):
+        return "[" + ",".join(map(str, self)) + "]"
+
+    __repr__ = __str__
+
+
 class Ident:
     """A value with an identity: prints like the plain string it wraps; a copy.copy / copy.deepcopy of it is a DIFFERENT value
     (a sentinel compared with `is`, a deliberately shared registry); pickling keeps the name (another process cannot share
